@@ -60,7 +60,8 @@ def gen_wellformed(rng, enz, nmods=None, closing=None):
     """a well-formed assembly (C01's input space): vector + chain, every plasmid with exactly the two sites,
     at a random rotation, modules in random argument order; returns the case and the expected product"""
     nmods = nmods or rng.randint(1, 5)
-    g = gen.gen_assembly(rng, enz, nmods, closing=closing)
+    # one case in five carries ambiguous base calls (N) outside its sites and overhangs
+    g = gen.gen_assembly(rng, enz, nmods, closing=closing, ns=rng.choice([0.1, 0.3]) if rng.random() < 0.2 else 0.0)
     if g is None:
         return None
     (vw, vd), mods, expected = g
